@@ -58,6 +58,10 @@ def check_dispatch(ctx, md, params, result_adt, rule="R-1"):
         name = md.class_name(cls)
         for f, e in effs:
             by_label.setdefault(name, []).append((f, e))
+    stray = [(f, (e.get("callee") or "assignment").split("::")[-1], fn.where(e["bb"])) for f, e in md.outside_effects]
+    ctx.ob(rule, "frame:outside-dispatch:%s" % result_adt, not stray,
+           "the decoded %s is written only by the per-entry dispatch: nothing sorts, truncates, clears or rewrites a field before or "
+           "after the loop over the map entries" % result_adt.split("::")[-1], where=fn.span, detail={"writes_outside_the_loop": stray})
     listed = sorted(md.listed)
     ctx.ob(rule, "cases:%s" % result_adt, listed == sorted(params),
            "the typed labels dispatched by the %s decoder are exactly %s (found %s)" % (result_adt, sorted(params), listed), where=fn.span)
